@@ -165,7 +165,7 @@ func cmdFn(args []string) {
 	SolveAll(all, solveOpts{timeout: time.Duration(*tsec) * time.Second, getModel: true}, 16)
 	cnt := map[string]int{}
 	for _, o := range all {
-		ok := (o.Expect == "sat" && o.Status == "sat") || (o.Expect != "sat" && o.Status == "unsat")
+		ok := discharged(o)
 		if ok {
 			cnt["discharged"]++
 		} else {
@@ -210,6 +210,24 @@ func init() {
 			for x := range fs {
 				fmt.Printf("   %q\n", x)
 			}
+		}
+	}
+}
+
+func init() {
+	debugHooks["where"] = func(w *World, args []string) {
+		re := regexp.MustCompile(args[0])
+		var keys []string
+		for k, f := range w.Funcs {
+			if w.InModule(f) && re.MatchString(k) {
+				keys = append(keys, k)
+			}
+		}
+		sort.Strings(keys)
+		for _, k := range keys {
+			f := w.Funcs[k]
+			p := w.Fset.Position(f.Pos())
+			fmt.Printf("%s  %s:%d\n", k, strings.TrimPrefix(p.Filename, "/repo/tooling/"), p.Line)
 		}
 	}
 }
